@@ -284,6 +284,7 @@ class Harness(object):
         self.in_query = False
         self.quiescent_points = []
         self.race_exercised = False
+        self.foreign_drops = []           # (timed-out request, stream, token of the foreign handler it removed)
         self.inflight_hook = None
         self.traffic = False              # a frame was processed since the last heartbeat round
         self.hb_race_ran = 0
@@ -836,6 +837,12 @@ class Harness(object):
         ent = self.conn.__dict__['_requests_real'].get(i)
         live = a.get('live', True)
         self.to_ctx = {'i': i, 'tok': ent[0].tok if ent else None, 'live': live, 'fired': False, 'nested': a.get('after_pop')}
+        mine_live = [t for t, d in self.tokens.items() if d.get('fut') is rf and any(w[1] == t for w in self.wire)]
+        if ent is not None and self.tokens.get(ent[0].tok, {}).get('fut') is not rf and mine_live:
+            # (only when request r is legitimately still pending -- it has a retried / re-prepared message on the wire; a timer
+            #  firing after its request completed is cancelled in the driver and is explored here only for the model comparison)
+            # the timeout of request r is about to drop the handler of ANOTHER request that is outstanding on that stream
+            self.foreign_drops.append((r, i, ent[0].tok))
         if self.pm is not None and self.pm.get('i') == i:
             self.race_exercised = True       # _on_timeout run between process_msg's orphan test and its pop
         self._in_timeout = getattr(self, '_in_timeout', 0) + 1
